@@ -33,6 +33,13 @@ CLAIMED = {
          "threshold, +-1 ulp, midpoints; per-event measure compared exactly on dyadic rates) and by running Rate_Engine::Rate on generated pairs.",
          "Lean kernel + three standard axioms; translator tools/translate/tr_c14.py (cexpr); double rounding of thresholds modelled not verified; Promotetime translated, not executed.",
          "6/C14"),
+ "C02": ("Lean 4 proof over exact rationals (result is a lattice image; antisymmetry incl. ties; shortest of all images for every orthorhombic box; "
+         "recovery and strict uniqueness of the image shorter than half the shortest height for upper-triangular boxes; shift invariance) + exact correspondence",
+         "Theorems for all points and boxes about an exact-arithmetic model that mirrors orthorhombicbox.cc / triclinicbox.cc / openbox.cc line by line; "
+         "tied to the working tree through Topology::setBox + BCShortestConnection / BoxVolume / ShortestBoxSize on dyadic inputs (compared exactly, ties and "
+         "points thousands of images away included) and generic doubles; predicates on the implementation output solve the lattice combination exactly.",
+         "Lean kernel + three standard axioms; harness/driver; IEEE rounding and Eigen's round() modelled (std::round).",
+         "6/C02"),
 }
 REASONS = {}
 
